@@ -31,7 +31,9 @@ THEOREMS = ["C15_scalar_broadcasts", "C15_sequence_zips", "C15_wrong_length_rais
             "C15_membership_changes_only_by_add_or_member_list", "C15_observe_once",
             "C15_observe_each_member_exactly_once_in_histories", "C15_member_refusal_touches_nothing_else",
             "C15_direct_member_change_is_read_back", "C15_iteration_yields_members",
-            "C15_constructor_adds_in_order", "C15_member_list_assignment", "C15_read_in_any_state"]
+            "C15_constructor_adds_in_order", "C15_member_list_assignment", "C15_read_in_any_state",
+            "C15_slits_step_invariant", "C15_slits_history_invariant", "C15_connect_pipelines_fresh_and_unshared",
+            "C15_shared_semantics_refines_model", "C15_observer_named_twice"]
 
 HEADER = ("Require Import Cherab.Common.Qx.\nFrom Coq Require Import String.\n"
           "Require Import Cherab.Model.C15_Groups Cherab.Model.C15_Table Cherab.Model.C15_Check.\n"
@@ -156,7 +158,10 @@ class Impl:
         self.base_types = {1: SightLine, 2: FibreOptic, 3: Pixel, 4: TargettedPixel, 5: SpectroscopicSightLine,
                            6: SpectroscopicFibreOptic, 7: BolometerFoil}
         self.member_types = {t: counting(b) for t, b in self.base_types.items()}
-        self.slit = BolometerSlit("slit", Point3D(0, 0, 0), Vector3D(1, 0, 0), 0.005, Vector3D(0, 1, 0), 0.005)
+        self.slits = [BolometerSlit("slit%d" % i, Point3D(0.01 * i, 0, 0), Vector3D(1, 0, 0), 0.005, Vector3D(0, 1, 0), 0.005)
+                      for i in range(3)]
+        self.slit = self.slits[0]
+        self.n_foils = 0
         self.sphere0 = Sphere(0.5)
         self.declared = {}
         for cname, cls in self.classes:
@@ -177,7 +182,8 @@ class Impl:
         if ty == 4:
             return C([self.sphere0], name=name)
         if ty == 7:
-            o = C(name, P(0, 0, -0.08), V(1, 0, 0), 0.0025, V(0, 1, 0), 0.005, self.slit)
+            self.n_foils += 1           # foils share three slits (pattern 0,1,0,2,1,0,...: repeats and new ones in any order)
+            o = C(name, P(0, 0, -0.08), V(1, 0, 0), 0.0025, V(0, 1, 0), 0.005, self.slits[(self.n_foils * 7 // 3) % 3])
             o.spectral_bins = 15       # a foil is built with one spectral bin, which would refuse spectral_rays > 1
             return o
         return self.Node(name=name)          # ty 9: a scene-graph node that is not an observer
@@ -336,8 +342,8 @@ class Impl:
                 except AttributeError:
                     continue          # read-only on this observer type (e.g. FibreOptic.sensitivity): no group sets it
                 vals = ints if DOM[attr][0] == "int" else [v for v in floats if attr not in NO_EXTREME or v == 0 or 2.0 ** -60 <= abs(v) <= 2.0 ** 60]
+                m = probe                      # one live member per (type, attribute): the rules read its current state
                 for v in vals:
-                    m = self.make_member(ty, "p")
                     want = self.rejects(attr, v, m)
                     n += 1
                     try:
@@ -686,6 +692,7 @@ class Case:
         self.dropped = set()
         self.stats = {}
         self.cps = []
+        self.slit_cps = []
         if script is None:
             self.run(max_ops)
         else:
@@ -701,13 +708,18 @@ class Case:
             st = "[]"
         else:
             names = ["name"] + [a for a in self.attrs if a != "name" and hasattr(o, a)]
-            st = "[" + "; ".join("(%s, %s)" % (coq_string(a), self.impl.enc(self.impl.read(o, a))) for a in names) + "]"
+            st = "[" + "; ".join(["(%s, %s)" % (coq_string(a), self.impl.enc(self.impl.read(o, a))) for a in names]
+                                 + (["(\"slit\", %s)" % self.impl.enc(o.slit)] if ty == 7 else [])) + "]"
         self.pool.append((oid, ty, o, st))
         self.ids[id(o)] = oid
         return oid, o
 
     def members(self):
         return self.impl.members(self.cname, self.g)
+
+    def has_repeats(self):
+        ms = self.members()
+        return len({id(m) for m in ms}) != len(ms)
 
     def stat(self, k):
         self.stats[k] = self.stats.get(k, 0) + 1
@@ -722,10 +734,12 @@ class Case:
         self.ops.append(coq_op)
         self.res.append(r)
         self.desc.append(desc)
+        if self.bolo and self.rng.random() < 0.6:
+            self.slit_cps.append("(%d%%nat, [%s])" % (len(self.ops) - 1, "; ".join(str(self.impl.obj_id(x)[1]) for x in self.g.slits)))
         # checkpoint: the full state of every member right after this operation (always after a member
         # refused a value, an error, a member-list assignment; otherwise at random)
         if len(self.members()) <= 12 and (coq_op.startswith(("OAssignRej", "OSetMembers", "ODirect")) or r.startswith("RErr")
-                                          or self.rng.random() < 0.1):
+                                          or self.rng.random() < 0.08):
             self.cps.append("(%d%%nat, [%s])" % (len(self.ops) - 1, ";\n    ".join(self.snapshot())))
 
     def snapshot(self):
@@ -740,6 +754,13 @@ class Case:
     def op_add(self, wrong=False, ty=None, method=None):
         impl, rng = self.impl, self.rng
         ok = usable_types(impl, self.cname)
+        cur = self.members()
+        if ty is None and not wrong and cur and rng.random() < 0.05:
+            o = rng.choice(cur)                  # the same observer once more: a second slot for one object
+            oid = self.ids[id(o)]
+            meth = self.g.add_foil_detector if self.bolo else self.g.add_observer
+            self.stat("add_member_again")
+            return self.do("OAdd %d" % oid, "add #%d again" % oid, lambda: (meth(o), "ROk")[1])
         if ty is not None:
             wrong = ty == 9 or ty not in accepted_types(impl, self.cname)
         elif wrong:
@@ -770,6 +791,9 @@ class Case:
         if rng.random() < 0.15:
             bad = [t for t in list(impl.base_types) + [9] if t == 9 or t not in accepted_types(impl, self.cname)]
             objs.insert(rng.randint(0, len(objs)), self.new_obj(rng.choice(bad))[1])
+        if objs and rng.random() < 0.15:
+            objs.insert(rng.randint(0, len(objs)), rng.choice(objs))      # one observer named twice
+            self.stat("setmembers:with-repeat")
         kind = rng.choice(["list", "list", "tuple", "scalar"] if not self.bolo else ["list", "list", "tuple"])
         ids = [self.ids[id(o)] for o in objs]
         if kind == "scalar":
@@ -842,6 +866,12 @@ class Case:
         is_seq = isinstance(v, (list, tuple, np.ndarray))
         if impl.numeric(a) and not mode.endswith("type-error") and not (is_seq and len(v) != n):
             refusal = impl.first_refusal(a, v, self.members())
+        if self.has_repeats() and (refusal is not None or (a == "render_engine" and mode.endswith("type-error"))):
+            # a loop stopping half way on a group that holds one observer twice is outside the sharing model
+            mode, v = "scalar", impl.rand_value(rng, a)
+            if impl.numeric(a) and impl.first_refusal(a, v, self.members()) is not None:
+                return self.op_len()     # (the members' state refuses even the usual values)
+            refusal = None
         self.stat("assign:" + mode.split(":")[0])
         self.stat("assign@" + a)
 
@@ -873,6 +903,37 @@ class Case:
         self.stat("direct_member_change")
         self.do("ODirect %d %s %s" % (self.ids[id(m)], coq_string(ma), impl.enc_assigned(a, v)),
                 "member #%d .%s = value" % (self.ids[id(m)], ma), lambda: (setattr(m, ma, v), "ROk")[1])
+
+    def op_connect(self):
+        """connect_pipelines (base signature): the identities of the new pipelines are an outcome; the model
+        accepts the outcome only if it meets the identity-free specification (connect_valid)"""
+        impl, rng = self.impl, self.rng
+        if self.bolo or self.cname.startswith("Spectroscopic") or self.has_repeats():
+            return self.op_len()       # (two slots of one observer read the same row: outside the identity-free specification)
+        P = impl.pipeline_classes
+        idx = [rng.randrange(len(P)) for _ in range(rng.choice([1, 1, 2, 2, 3, 0]))]
+        mode = rng.choice(["default", "default", "given", "given", "mismatch"])
+        kw = None if mode == "default" else [{} for _ in idx] if mode == "given" else [{} for _ in range(len(idx) + rng.choice([1, -1]) if idx else 1)]
+        if kw is not None and kw and rng.random() < 0.5:
+            kw[0] = {"name": "p"}
+        w = len(impl.reg)
+        self.stat("connect_pipelines:" + mode)
+        try:
+            if kw is None:
+                self.g.connect_pipelines([P[i] for i in idx])
+            else:
+                self.g.connect_pipelines([P[i] for i in idx], kw, suppress_display_progress=rng.random() < 0.5)
+            result = "ROk"
+        except Exception as ex:               # mapped to the error enum and compared with the model
+            result = "RErr %s" % err_of(ex)
+            self.stat("errors:" + err_of(ex))
+        rows = []
+        for m in self.members():
+            rows.append("[%s]" % "; ".join("(%d, %d)" % (next((k for k, c in enumerate(P) if type(p) is c), 99), impl.obj_id(p)[1])
+                                           for p in m.pipelines))
+        op = "OConnect [%s] %s %d [%s]" % ("; ".join(map(str, idx)), "None" if kw is None else "(Some %d%%nat)" % len(kw), w,
+                                           "; ".join(rows))
+        self.do(op, "connect_pipelines(%d classes, keywords %s)" % (len(idx), mode), lambda: result)
 
     def op_members(self):
         """read the member list through every public route"""
@@ -990,8 +1051,10 @@ class Case:
                 self.op_observe()
             elif r < 0.85:
                 self.op_len()
-            elif r < 0.89:
+            elif r < 0.87:
                 self.op_members()
+            elif r < 0.89:
+                self.op_connect()
             elif r < 0.95:
                 self.op_add(wrong=rng.random() < 0.3)
             else:
@@ -1034,7 +1097,8 @@ class Case:
                 "Definition cps_%d : list (nat * list snap) := [%s].\n" % (
                     i, pool, i, ";\n  ".join(self.ops), i, ";\n  ".join(self.res), i, ";\n  ".join(self.snaps),
                     i, ";\n  ".join(self.cps)),
-                "check_case_cp cls_%s env_%d ops_%d impl_%d final_%d cps_%d" % (self.cname, i, i, i, i, i))
+                "check_case_cp cls_%s env_%d ops_%d impl_%d final_%d cps_%d" % (self.cname, i, i, i, i, i)
+                + (" && check_slits cls_%s env_%d ops_%d [%s]" % (self.cname, i, i, "; ".join(self.slit_cps)) if self.bolo else ""))
 
     def meta(self):
         return {"class": self.cname, "initial_size": self.n_init, "final_size": self.n_final,
@@ -1138,7 +1202,7 @@ def run(ctx):
         ctx.violation(f["key"], "%s.%s: %s" % (f["class"], f["where"], f["claim"]), f, found=True)
     unknown = [f for f in fails if f["key"] not in ctx.known]
     # ---- (X) correspondence -----------------------------------------------------------------------
-    n_cases = 450 if quick else 6300
+    n_cases = 315 if quick else 3600
     max_ops = 9 if quick else 14
     rows_of = dict(table)
     cases = []
@@ -1236,7 +1300,8 @@ def run(ctx):
                          "assignments_per_attribute": attr_hits, "class_attribute_pairs_assigned": len(pairs),
                          "extracted_table_entries": n_entries, "search_checks": n_checks, "search_group_sizes": sizes,
                          "disagreeing_histories": len(diff_cases),
-                         "intermediate_state_checkpoints": sum(len(c.cps) for c in cases)},
+                         "intermediate_state_checkpoints": sum(len(c.cps) for c in cases),
+                         "slit_list_checkpoints": sum(len(c.slit_cps) for c in cases)},
         "tolerance": "none: numbers are dyadic and compared as exact rationals, objects by identity, error kinds exactly",
         "input_classes": ["histories on one live group incl. constructor observers= vs add_observer, direct member changes, the same "
                           "value object assigned again, member list re-assigned, observe repeated",
@@ -1247,9 +1312,12 @@ def run(ctx):
                           "list and tuple subclasses, numpy-integer and bool keys, names differing by case, empty name",
                           "second-order routes: constructor, add_sight_line, sight_lines, iteration, member-list getters, "
                           "connect_pipelines"],
-        "partial": [                    "pipelines assignment on the deprecated spectroscopic groups is exercised by the search only (their "
-                    "display_progress/accumulate live inside the pipeline objects, the member store model does not couple them)",
-                    "member observers' own validation (raysect) is outside the model; BolometerIRVB members are not generated"],
+        "partial": ["the deprecated spectroscopic groups' pipelines assignment and connect_pipelines (their display_progress/accumulate "
+                    "live inside the pipeline objects; the member store model does not couple them): search only",
+                    "a loop that stops half way (member refusal, bad render engine) and connect_pipelines on a group holding one "
+                    "observer twice are not generated",
+                    "member observers' own validation (raysect) is outside the model (probed); BolometerIRVB members, camera_geometry not generated"],
+
     })
     ctx.coverage["samples"] = [cases[0].meta(), cases[min(len(cases) - 1, 4)].meta()]
     ctx.coverage["extracted_table"] = {c: ["%s:%s" % (r["name"], r["shape"]) for r in rows] for c, rows in table}
